@@ -48,7 +48,8 @@ def borrowed_elsewhere_cases():
         for opname in (b'move', b'copy'):
             out.append(';'.join(['obj', 'str:x76', 'addcs:0:x6b6579:1', 'arr', 'obj', 'astr:3:x6f70:x' + hx(opname), 'astr:3:x66726f6d:x' + hx(b'/key'),
                                  'astr:3:x70617468:x', 'add:2:3', 'applypatch%s:0:2' % cs, 'print:0:0', 'del:2']))
-    return [Case('hist XS 0 ' + o, {'tags': ['directed', 'borrowed-memory-outside-heap-model']}) for o in out]
+    res = [Case('hist XS 0 ' + o, {'tags': ['directed', 'borrowed-memory-outside-heap-model']}) for o in out]
+    return res
 
 def generate(ctx):
     rng = random.Random(ctx['seed'] * 104729 + 7)
